@@ -869,7 +869,9 @@ func (lb *LoadBalancer) findHealthyBackend(r *http.Request) *Backend {
 func (lb *LoadBalancer) proxyRequest(backend *Backend, w http.ResponseWriter, r *http.Request, startTime time.Time) error {
 	// Track the active connection
 	backend.IncrementConnections()
-	lb.metricsCollector.SyncBackendConnections(backend.Name, lb.connectionsUnderName(backend))
+	if read := lb.connectionsUnderName(backend); read != nil {
+		lb.metricsCollector.SyncBackendConnections(backend.Name, read)
+	}
 
 	// Create a custom response writer to capture the status code
 	rw := &responseWriter{
@@ -895,7 +897,9 @@ func (lb *LoadBalancer) proxyRequest(backend *Backend, w http.ResponseWriter, r 
 	defer func() {
 		// Decrement the connection count when done
 		backend.DecrementConnections()
-		lb.metricsCollector.SyncBackendConnections(backend.Name, lb.connectionsUnderName(backend))
+		if read := lb.connectionsUnderName(backend); read != nil {
+			lb.metricsCollector.SyncBackendConnections(backend.Name, read)
+		}
 
 		if !completed {
 			// Aborted mid-response: a failed request of this backend
@@ -992,16 +996,23 @@ func (lb *LoadBalancer) handlePassiveHealthCheck(backend *Backend, statusCode in
 // backend's name. The metrics are kept by name and names are not unique: with two backends
 // registered under one name, the gauge published for the name is that of both together, not
 // that of whichever of them served a request last. The reader takes no locks (it runs under
-// the metrics lock) and reads the live gauges.
+// the metrics lock) and reads the live gauges. It is nil when no backend of that name is in
+// the pool (any more).
 func (lb *LoadBalancer) connectionsUnderName(backend *Backend) func() int32 {
 	lb.mutex.RLock()
 	all := lb.strategy.GetBackends()
 	lb.mutex.RUnlock()
-	peers := []*Backend{backend}
+	// Only backends that are in the pool are published: a request that ends after its backend
+	// was removed must neither bring the removed backend's entry back nor count under the name
+	// of a backend registered since
+	var peers []*Backend
 	for _, b := range all {
-		if b != backend && b.Name == backend.Name {
+		if b.Name == backend.Name {
 			peers = append(peers, b)
 		}
+	}
+	if len(peers) == 0 {
+		return nil
 	}
 	return func() int32 {
 		var n int32
